@@ -73,3 +73,30 @@ Proof.
     apply IH. intros r' Hr'. apply Hfresh. now right. }
   rewrite F. cbn [r_to]. destruct (addr_match to from); reflexivity.
 Qed.
+
+(* ---------- C06: whatever was sent is no longer "in flight" once the timeout has passed ---------- *)
+Theorem not_inflight_after_timeout i tid now timeout :
+  (forall r, In r (reqs i) -> (r_sent r + timeout <= now)%Z) -> inflight i tid now timeout = false.
+Proof.
+  intros H. unfold inflight, find_tid. destruct (find (fun r => r_tid r =? tid) (reqs i)) as [r|] eqn:F; [|reflexivity].
+  apply find_some in F as [Hin _]. specialize (H r Hin). apply Z.ltb_ge. lia.
+Qed.
+
+(* IterativeQuery::is_done: none of the lookup's requests is in flight *)
+Definition lookup_done (i : infl) (lookup_tids : list N) (now timeout : Z) : bool :=
+  negb (existsb (fun t => inflight i t now timeout) lookup_tids).
+
+Theorem lookup_done_after_timeout i tids now timeout :
+  (forall r, In r (reqs i) -> (r_sent r + timeout <= now)%Z) -> lookup_done i tids now timeout = true.
+Proof.
+  intros H. unfold lookup_done. apply negb_true_iff. induction tids as [|t l IH]; [reflexivity|].
+  cbn [existsb]. now rewrite (not_inflight_after_timeout i t now timeout H), IH.
+Qed.
+
+(* an answered request is not in flight either: a lookup all of whose requests were answered is done *)
+Theorem answered_not_inflight i tid from now timeout :
+  fst (is_expected i tid from) = true -> inflight (snd (is_expected i tid from)) tid now timeout = false.
+Proof.
+  unfold is_expected. destruct (find_tid i tid) as [r|]; [|discriminate].
+  destruct (addr_match (r_to r) from); [|discriminate]. intros _. cbn [snd]. unfold inflight. now rewrite find_after_remove.
+Qed.
